@@ -352,6 +352,13 @@ func ZZ_C18_WriteBackAtomic() {
 	c := zzConf(home, nil)
 	v := zzFrom(zzPlainAlpha, 2)
 	kv := map[string]string{"zzk1": v}
+	// leftovers of earlier interrupted write-backs must not leak into this one
+	if zzvf.Choose(2) == 1 {
+		junk := []byte("zzjunk=1\n# a long stale tail ................................................................................................\n")
+		zzvf.FsWrite(path+".tmp", junk, zzT0)
+		zzvf.FsWrite(path+".tmp1", junk, zzT0)
+		zzvf.FsWrite(path+".tmp2", junk, zzT0)
+	}
 	k := 1 + zzvf.Choose(6)
 	prefix := []int{-1, 0, 3}[zzvf.Choose(3)]
 	zzvf.FsCrashAfter(k, prefix)
